@@ -349,6 +349,16 @@ def full_name(scratch, group, harness):
     return harness
 
 
+LEAN_ARGS = ["--no-memory-safety-checks", "--no-overflow-checks", "--no-assertion-reach-checks"]
+
+
+def lean_args(u):
+    extra = os.environ.get("KV_KANI_ARGS", "").split()
+    if getattr(u, "lean", False) or os.environ.get("KV_LEAN") == "1":
+        return LEAN_ARGS + extra
+    return extra
+
+
 def run_kani(scratch, harness, *, group=None, timeout=900, mem_gb=14, unwind_rules=None, extra_args=(),
              default_unwind=None, playback=False, trace=False):
     """Run one harness; returns KaniResult.  Never raises on solver trouble."""
@@ -404,11 +414,15 @@ def run_kani(scratch, harness, *, group=None, timeout=900, mem_gb=14, unwind_rul
     return res
 
 
-def build(scratch, probe_harness="kv_noop"):
-    """One full Kani build of the scratch crate (all mounted harnesses are code-generated).
-    Returns (ok, log)."""
+def build(scratch, harnesses=None):
+    """One Kani code generation of the scratch crate, restricted to the harnesses that are going
+    to be run (list of (group, name)); all mounted harnesses when None.  Returns (ok, log)."""
     cmd = ["cargo", "kani", "-Z", "stubbing", "-Z", "unstable-options"] + KANI_EXTRA + ["--only-codegen",
            "--target-dir", scratch.target]
+    if harnesses and os.environ.get("KV_BUILD_ALL") != "1":
+        for (g, n) in harnesses:
+            cmd += ["--harness", full_name(scratch, g, n)]
+        cmd += ["--exact"]
     if scratch.features:
         cmd += ["--features", ",".join(scratch.features)]
     p = subprocess.run(cmd, cwd=scratch.dir, env=ENV, stdout=subprocess.PIPE, stderr=subprocess.STDOUT)
